@@ -8,7 +8,8 @@ from ..core import Fail, Result
 ID = "C17"
 RULE = ("case = generic SDE with diagonal (element-wise g_i(t,y_i)), scalar or additive structure x every solver that "
         "accepts both the special and the general declaration (euler; euler_heun, heun, midpoint, reversible_heun, "
-        "log_ode with davie/foster) x (t0, dt, t1, output times) x entropy x float32/float64. The same SDE is solved "
+        "log_ode with davie/foster) x (t0, dt, t1, output times) x entropy x float32/float64 x fixed or adaptive steps (every "
+        "cell is enumerated once with each, on a time-dependent SDE; Hypothesis adds random cases). The same SDE is solved "
         "under its special declaration and under noise_type='general' (diffusion as a batch of d x m matrices; "
         "diag_embed for diagonal) with equal-entropy Brownian motions; all outputs must agree to 1e3*eps*scale "
         "(observed bit-identical). Non-trivial = >= 3 steps and state dimension >= 2 for diagonal/scalar; distinct = "
@@ -33,11 +34,33 @@ def _case(draw, tier):
     tset = draw(solve.time_setup(max_steps=16 if tier == "quick" else 48, dtypes=(spec["dtype"],)))
     return {"spec": spec, "method": method, "levy": levy, "time": tset,
             "outs": draw(st.lists(st.floats(0.01, 0.99), min_size=0, max_size=3)),
-            "entropy": draw(st.integers(0, 2 ** 31 - 2))}
+            "entropy": draw(st.integers(0, 2 ** 31 - 2)), "adaptive": draw(st.sampled_from([False, False, True]))}
 
 
 def strategy(tier):
     return _case(tier)
+
+
+def enumerate_cases(tier):
+    """Every (special noise type, solver accepting both declarations, Levy mode) cell, fixed and adaptive steps, on a
+    time-dependent SDE."""
+    import os
+    import random
+    seed = int(os.environ.get("VERIF_SEED", "1") or 1)
+    idx = 0
+    for sde_type, methods_ in SOLVERS.items():
+        for method in methods_:
+            for nt in ("diagonal", "scalar", "additive"):
+                for levy in (["davie", "foster"] if method == "log_ode" else ["none", "space-time"]):
+                    for adaptive in (False, True):
+                        idx += 1
+                        rnd = random.Random(seed * 6007 + idx)
+                        spec = {"sde_type": sde_type, "noise_type": nt, "d": 2, "m": 1 if nt == "scalar" else 2,
+                                "batch": 2, "hidden": 3, "seed": rnd.randrange(2 ** 31), "tdep": True, "fscale": 1.0,
+                                "gscale": 0.7, "dtype": "float64"}
+                        yield {"spec": spec, "method": method, "levy": levy, "outs": [0.4], "adaptive": adaptive,
+                               "time": {"t0": 0.1, "t1": 0.1 + 5 * 0.125, "dt": 0.125, "tdtype": "float64"},
+                               "entropy": rnd.randrange(2 ** 31 - 2)}
 
 
 def run_case(case):
@@ -55,17 +78,19 @@ def run_case(case):
     combo = {"method": case["method"], "options": {}, "levy": case["levy"]}
     sig = {"method": case["method"], "noise_type": spec["noise_type"], "levy": case["levy"]}
     outs = []
+    kw = dict(adaptive=True, rtol=1e-2, atol=1e-2, dt_min=tm["dt"] / 16) if case.get("adaptive") else {}
     for s in (sde, gen):
         bm = sdes.make_bm(torchsde, spec, ts[0], ts[-1], case["entropy"], levy=case["levy"])
         with torch.no_grad():
-            ys, _ = solve.run(torchsde, s, y0, ts, combo, tm["dt"], bm=bm)
+            ys, _ = solve.run(torchsde, s, y0, ts, combo, tm["dt"], bm=bm, **kw)
         outs.append(ys)
     a, b = outs
     scale = max(1.0, float(a.abs().max()))
     e = float((a - b).abs().max()) / scale
     steps = (tm["t1"] - tm["t0"]) / tm["dt"]
     labels = [f"{spec['sde_type']}/{spec['noise_type']}/{case['method']}", f"levy={case['levy']}",
-              f"dtype={spec['dtype']}", "bit_identical" if torch.equal(a, b) else "differs_in_last_bits"]
+              f"dtype={spec['dtype']}", "bit_identical" if torch.equal(a, b) else "differs_in_last_bits",
+              "adaptive" if case.get("adaptive") else "fixed"]
     fail = None
     if not (e <= 1e3 * eps) or not bool(torch.isfinite(a).all()):
         fail = Fail("special_vs_general", f"{spec['noise_type']} declaration and its general embedding disagree with "
